@@ -13,6 +13,17 @@ pub(crate) struct SymmetricStateData {
     h:       [u8; MAXHASHLEN],
     ck:      [u8; MAXHASHLEN],
     has_key: bool,
+    // The key most recently installed in `cipherstate`, kept so that a checkpoint can restore it.
+    cipher_key: [u8; CIPHERKEYLEN],
+}
+
+/// Everything a failed handshake operation has to put back: the symmetric state proper and the
+/// position of its cipher state (which key, which nonce).
+#[derive(Copy, Clone)]
+pub(crate) struct Checkpoint {
+    data:           SymmetricStateData,
+    cipher_nonce:   u64,
+    cipher_has_key: bool,
 }
 
 impl Default for SymmetricStateData {
@@ -21,6 +32,7 @@ impl Default for SymmetricStateData {
             h:       [0_u8; MAXHASHLEN],
             ck:      [0_u8; MAXHASHLEN],
             has_key: false,
+            cipher_key: [0_u8; CIPHERKEYLEN],
         }
     }
 }
@@ -66,6 +78,7 @@ impl SymmetricState {
 
         self.inner.ck = hkdf_output.0;
         self.cipherstate.set(&cipher_key, 0);
+        self.inner.cipher_key = cipher_key;
         self.inner.has_key = true;
     }
 
@@ -95,6 +108,7 @@ impl SymmetricState {
         let mut cipher_key = [0_u8; CIPHERKEYLEN];
         cipher_key.copy_from_slice(&hkdf_output.2[..CIPHERKEYLEN]);
         self.cipherstate.set(&cipher_key, 0);
+        self.inner.cipher_key = cipher_key;
     }
 
     pub fn has_key(&self) -> bool {
@@ -150,12 +164,21 @@ impl SymmetricState {
         self.hasher.hkdf(&self.inner.ck[..hash_len], &[0_u8; 0], 2, out1, out2, &mut []);
     }
 
-    pub(crate) fn checkpoint(&mut self) -> SymmetricStateData {
-        self.inner
+    pub(crate) fn checkpoint(&mut self) -> Checkpoint {
+        Checkpoint {
+            data:           self.inner,
+            cipher_nonce:   self.cipherstate.nonce(),
+            cipher_has_key: self.cipherstate.has_key(),
+        }
     }
 
-    pub(crate) fn restore(&mut self, checkpoint: SymmetricStateData) {
-        self.inner = checkpoint;
+    pub(crate) fn restore(&mut self, checkpoint: Checkpoint) {
+        self.inner = checkpoint.data;
+        self.cipherstate.restore(
+            &checkpoint.data.cipher_key,
+            checkpoint.cipher_nonce,
+            checkpoint.cipher_has_key,
+        );
     }
 
     pub fn handshake_hash(&self) -> &[u8] {
